@@ -45,6 +45,8 @@ def crash_signature(o: dict, cfg: str) -> str:
     for pred, name in CANON:
         if pred(o, cfg):
             return name
+    if o["outcome"] == "timeout":
+        return f"C08:does-not-terminate:{cfg}"
     if o["outcome"] == "abort":
         kind = "stack-overflow" if "overflowed its stack" in (o.get("stderr") or "") else f"process-died-rc{o.get('rc')}"
         return f"C08:{kind}:{cfg}"
